@@ -25,7 +25,9 @@ def alphabet():
         for sec in (False, True):
             # a secondary alignment is a different alignment: never the same coordinates as the primary one
             off = 7 if sec else 0
-            b = dict(chr=chrom, secondary=sec, start=1000 + off, end=3000 + off, region=(900, 3500), penalty=0.0)
+            # the same coordinates on both chromosomes (a locus and its copy on an alternative contig), in read clusters of different extent
+            reg = (900, 3500) if chrom == "c1" else (880, 3520)
+            b = dict(chr=chrom, secondary=sec, start=1000 + off, end=3000 + off, region=reg, penalty=0.0)
             recs.append(dict(b, type="unique", isoforms=[t1], genes=[g1]))
             recs.append(dict(b, type="unique_minor_difference", isoforms=[t2], genes=[g1]))
             recs.append(dict(b, type="ambiguous", isoforms=[t1, t2], genes=[g1]))
@@ -34,8 +36,8 @@ def alphabet():
             recs.append(dict(b, type="inconsistent", isoforms=[t3], genes=[g2], penalty=2.0))
             recs.append(dict(b, type="inconsistent_non_intronic", isoforms=[t1], genes=[g1], penalty=0.5))
             recs.append(dict(b, type="inconsistent_ambiguous", isoforms=[t1, t2], genes=[g1], penalty=1.0))
-            recs.append(dict(b, type="noninformative", isoforms=[], genes=[], start=1100 + off, end=1400 + off, region=(900, 3500)))
-            recs.append(dict(b, type="noninformative", isoforms=[], genes=[], start=800 + off, end=1400 + off, region=(900, 3500)))
+            recs.append(dict(b, type="noninformative", isoforms=[], genes=[], start=1100 + off, end=1400 + off, region=reg))
+            recs.append(dict(b, type="noninformative", isoforms=[], genes=[], start=800 + off, end=1400 + off, region=reg))
             recs.append(dict(b, type="intergenic", isoforms=[], genes=[], start=5000 + off, end=5400 + off, region=(5000 + off, 5400 + off)))
     # same chromosome, second locus (different coordinates) - ties inside one chromosome
     b = dict(chr="c1", secondary=False, start=7000, end=9000, region=(6900, 9500), penalty=0.0)
